@@ -90,3 +90,90 @@ def run_audit(prog: Program, rep: Report, pid: str):
         rep.undecided(f"{pid}.audit", "-", "audit-ran", "sensitivity audit applied no variant (corpus missing or every "
                                                         "variant failed to apply): the thorough tier proved nothing extra")
     rep.notes.append(f"sensitivity audit: {n} in-memory breach variants applied")
+
+
+
+# ----------------------------------------------------------------------------- mechanical mutation audit
+_MA = {}
+
+
+def _ma_job(job):
+    rel, site = job
+    from .mutants import apply
+    from .core import UNDECIDED as _U
+    from .rules import bij
+    prog, mod, pid = _MA["prog"], _MA["mod"], _MA["pid"]
+    m = next(mm for mm in prog.modules.values() if mm.relpath == rel)
+    try:
+        src2 = apply(m.tree, site)
+    except Exception:
+        return rel, "skipped"
+    p2 = mutated_program(prog, [(rel, m.src, src2)])
+    if p2 is None:
+        return rel, "skipped"
+    sub = Report(pid, "quick")
+    bij._cache.clear()
+    try:
+        mod.run(p2, sub, "quick")
+        sub.finish_counts()
+    except Exception:
+        return rel, "undecided"
+    finally:
+        bij._cache.clear()
+    if any(o.verdict == VIOLATED for o in sub.obs):
+        return rel, "reported"
+    if any(o.verdict == _U for o in sub.obs):
+        return rel, "undecided"
+    return rel, "silent"
+
+
+def mutation_audit(prog: Program, rep: Report, pid: str):
+    """Thorough tier, second part: every first-order mechanical mutant (verif/mutants.py: 20 operators) of the
+    property's anchor files is built in memory and the property's rules are run on it.  The counts go to the evidence
+    (how much of the anchored code the rules are sensitive to); a property whose rules report none of them fails
+    closed.  Silent mutants are not violations of anything: most are equivalent, crash at construction, or change
+    behaviour the property does not speak about (DESIGN.md 8.10)."""
+    import fnmatch
+    import json
+    import multiprocessing as mp
+    import os
+    from .mutants import Collector
+    if os.environ.get("VERIF_MUTATION_AUDIT", "1") == "0":
+        return
+    here = os.path.dirname(os.path.dirname(os.path.abspath(__file__)))
+    pats = []
+    for line in open(os.path.join(here, "properties.jsonl")):
+        d = json.loads(line)
+        if d["id"] == pid:
+            pats = d["anchors"]["files"]
+    jobs = []
+    for m in sorted(prog.modules.values(), key=lambda m: m.relpath):
+        if any(fnmatch.fnmatch(m.relpath, p) for p in pats):
+            jobs += [(m.relpath, s) for s in Collector(m.tree).sites]
+    if not jobs:
+        rep.undecided(f"{pid}.audit", "-", "mutation-audit", "no anchor file found for the mutation audit")
+        return
+    cap = int(os.environ.get("VERIF_MUTATION_AUDIT_CAP", "1200"))
+    total_sites = len(jobs)
+    if len(jobs) > cap:
+        step = len(jobs) / cap
+        jobs = [jobs[int(i * step)] for i in range(cap)]   # deterministic, evenly spread sample
+    _MA.update(prog=prog, mod=importlib.import_module(f"verif.rules.{pid.lower()}"), pid=pid)
+    n = min(16, os.cpu_count() or 4)
+    counts: dict = {}
+    try:
+        ctx = mp.get_context("fork")
+        with ctx.Pool(n) as pool:
+            for rel, st in pool.imap_unordered(_ma_job, jobs, chunksize=8):
+                c = counts.setdefault(rel, {"reported": 0, "undecided": 0, "silent": 0, "skipped": 0})
+                c[st] += 1
+    except Exception as e:
+        rep.undecided(f"{pid}.audit", "-", "mutation-audit", f"mutation audit could not run: {e!r}"[:300])
+        return
+    tot = {k: sum(c[k] for c in counts.values()) for k in ("reported", "undecided", "silent", "skipped")}
+    rep.analysed["mutation_audit"] = {"operators": 20, "mutation_sites": total_sites, "mutants": len(jobs), **tot,
+                                      "by_file": counts}
+    rep.notes.append(f"mutation audit: {len(jobs)} mechanical mutants of the anchor files, {tot['reported']} reported, "
+                     f"{tot['undecided']} undecided, {tot['silent']} silent")
+    # informational: non-vacuity is established by the canned-breach audit above (mechanical operators cannot, for
+    # instance, introduce the traced-value control flow that C14 is about, so a zero count here proves nothing)
